@@ -29,3 +29,38 @@ M("c09-load-normalised-uri", "C09", "same-uri", (L, "return self._load(srcfile, 
 M("c09-runtime-reads-file", "C09", "who-may-open", (R, "    template = _lookup_template(context, uri, calling_uri)\n    callable_, ctx", "    open(uri).close()\n    template = _lookup_template(context, uri, calling_uri)\n    callable_, ctx"))
 M("c09-benign-rename", "C09", "silent", (T, 'u_norm = self.uri.replace("\\\\", "/").lstrip("/")\n        u_norm = os.path.normpath(u_norm)\n        if u_norm.startswith(".."):', 'unorm = self.uri.replace("\\\\", "/").lstrip("/")\n        unorm = os.path.normpath(unorm)\n        u_norm = unorm\n        if unorm.startswith(".."):'))
 M("c09-benign-lstrip-in-lookup", "C09", "silent", (L, 'u = re.sub(r"^\\/+", "", uri.replace("\\\\", "/"))', 'u = uri.replace("\\\\", "/").lstrip("/")'))
+
+# ---------------------------------------------------------------- C14
+M("c14-freshness-flip", "C14", "freshness-polarity", (L, "template.module._modified_time >= template_stat[stat.ST_MTIME]", "template.module._modified_time <= template_stat[stat.ST_MTIME]"))
+M("c14-no-evict-before-reload", "C14", "freshness-polarity", (L, "                return template\n            self._collection.pop(uri, None)\n            return self._load", "                return template\n            return self._load"))
+M("c14-cleanup-swallow", "C14", "failure-cleanup", (L, "                self._collection.pop(uri, None)\n                raise\n", "                self._collection.pop(uri, None)\n                return None\n"))
+M("c14-cleanup-removed", "C14", "failure-cleanup", (L, "                self._collection.pop(uri, None)\n                raise\n", "                raise\n"))
+M("c14-check-always", "C14", "freshness-polarity", (L, "            if self.filesystem_checks:\n                return self._check(uri, self._collection[uri])\n            else:\n                return self._collection[uri]", "            return self._check(uri, self._collection[uri])"))
+M("c14-reversed-dirs", "C14", "search-order", (L, "for dir_ in self.directories:\n                # make sure", "for dir_ in reversed(self.directories):\n                # make sure"))
+M("c14-lru-skip-manage", "C14", "lru", (U, "        else:\n            item.value = value\n        self._manage_size()", "            self._manage_size()\n        else:\n            item.value = value"))
+M("c14-lru-evict-newest", "C14", "lru", (U, 'key=operator.attrgetter("timestamp"),\n                reverse=True,', 'key=operator.attrgetter("timestamp"),\n                reverse=False,'))
+M("c14-lru-threshold", "C14", "lru", (U, "def __init__(self, capacity, threshold=0.5):", "def __init__(self, capacity, threshold=1.5):"))
+M("c14-lru-no-stamp", "C14", "lru", (U, "        item.timestamp = timeit.default_timer()\n        return item.value", "        return item.value"))
+M("c14-oserror-no-evict", "C14", "failure-cleanup", (L, "        except OSError as e:\n            self._collection.pop(uri, None)\n", "        except OSError as e:\n"))
+M("c14-benign-gt", "C14", "silent", (L, "template.module._modified_time >= template_stat[stat.ST_MTIME]", "template_stat[stat.ST_MTIME] <= template.module._modified_time"))
+
+# ---------------------------------------------------------------- C16
+M("c16-release-not-finally", "C16", "lock-pairing", (L, "        finally:\n            self._mutex.release()", "        except KeyError:\n            pass\n        self._mutex.release()"))
+M("c16-no-second-read", "C16", "double-check", (L, "            try:\n                # try returning from collection one\n                # more time in case concurrent thread already loaded\n                return self._collection[uri]\n            except KeyError:\n                pass\n", ""))
+M("c16-reentry", "C16", "no-reentry", (L, "                    module_filename = None\n", "                    module_filename = None\n                    self.has_template(uri)\n"))
+M("c16-lru-del-unprotected", "C16", "lru-tolerance", (U, "                try:\n                    del self[item.key]\n                except KeyError:\n                    # if we couldn't find a key, most likely some other thread\n                    # broke in on us. loop around and try again\n                    break", "                del self[item.key]"))
+M("c16-render-stores-template", "C16", "render-isolation", (R, "    context._outputting_as_unicode = as_unicode\n", "    context._outputting_as_unicode = as_unicode\n    template._last_context = context\n"))
+
+# ---------------------------------------------------------------- C15
+M("c15-direct-write", "C15", "atomic-publish", (T, "        dest, name = tempfile.mkstemp(dir=os.path.dirname(outputpath))\n\n        os.write(dest, source)\n        os.close(dest)\n        shutil.move(name, outputpath)", "        with open(outputpath, 'wb') as f:\n            f.write(source)"))
+M("c15-tmp-in-default-dir", "C15", "atomic-publish", (T, "tempfile.mkstemp(dir=os.path.dirname(outputpath))", "tempfile.mkstemp()"))
+M("c15-move-before-close", "C15", "atomic-publish", (T, "        os.close(dest)\n        shutil.move(name, outputpath)", "        shutil.move(name, outputpath)\n        os.close(dest)"))
+M("c15-move-before-write", "C15", "atomic-publish", (T, "        os.write(dest, source)\n        os.close(dest)\n        shutil.move(name, outputpath)", "        shutil.move(name, outputpath)\n        os.write(dest, source)\n        os.close(dest)"))
+M("c15-stale-polarity", "C15", "staleness", (T, "or os.stat(path)[stat.ST_MTIME] < filemtime", "or os.stat(path)[stat.ST_MTIME] > filemtime"))
+M("c15-no-reload-after-magic", "C15", "staleness", (T, "                            self, data, filename, path, self.module_writer\n                        )\n                    module = compat.load_module(self.module_id, path)\n", "                            self, data, filename, path, self.module_writer\n                        )\n"))
+M("c15-magic-dropped", "C15", "staleness", (T, "if module._magic_number != codegen.MAGIC_NUMBER:", "if False:"))
+M("c15-writer-gets-str", "C15", "writer-contract", (T, "    if isinstance(source, str):\n        source = source.encode(lexer.encoding or \"ascii\")\n\n    if module_writer:", "    if module_writer:"))
+M("c15-writer-and-default", "C15", "writer-contract", (T, "    if module_writer:\n        module_writer(source, outputpath)\n    else:\n", "    if module_writer:\n        module_writer(source, outputpath)\n    if True:\n"))
+M("c15-lookup-writes", "C15", "who-may-write", (L, "        self._collection[uri] = template\n", "        self._collection[uri] = template\n        open('/tmp/x', 'w').write(uri)\n"))
+M("c15-verify-unbounded", "C15", "verify-directory", (U, "            if tries > 5:\n                raise", "            pass"))
+M("c15-benign-os-replace", "C15", "silent", (T, "shutil.move(name, outputpath)", "os.replace(name, outputpath)"))
